@@ -410,6 +410,14 @@ func perturb(s []Seg, k string, f int, rnd *rand.Rand) (pl []byte, ok bool) {
 			return repl(cs(x.N+2), -1), true
 		}
 		return repl(cs(x.N-1), -1), true
+	case "x63m0", "x63m1", "x63m8", "x63m80", "x63m89", "x63m100", "x63", "x62":
+		// the largest values of the 9-byte form: positive as int64 and such that offset + value wraps, the sign bit, 2^62
+		if fld("CLV") == nil {
+			return nil, false
+		}
+		v := map[string]uint64{"x63m0": 1<<63 - 1, "x63m1": 1<<63 - 2, "x63m8": 1<<63 - 9, "x63m80": 1<<63 - 81, "x63m89": 1<<63 - 90,
+			"x63m100": 1<<63 - 101, "x63": 1 << 63, "x62": 1 << 62}[k]
+		return repl(append([]byte{0xff}, le64(v)...), -1), true
 	case "lenover1", "lenfd", "lenfe", "lenff":
 		x := fld("L")
 		if x == nil {
